@@ -998,6 +998,30 @@ func c13StartupSupported(c *Ctx, bed *px.Bed, j c13Job, v primitive.ProtocolVers
 			r.Obs("plain_frame_on_compressed_connection:"+err.Error(), 1)
 		}
 	}
+	if sc.Alg != "" {
+		// bodiless requests in the negotiated form too: drivers that set the compression flag on every frame after the
+		// handshake send their heartbeat OPTIONS (and REGISTER) compressed
+		for vi, body := range c13EmptyCompressed(sc.Alg) {
+			st := int16(40 + vi)
+			ch := a.Expect(st)
+			_ = a.SendFrame(v, primitive.HeaderFlagCompressed, st, primitive.OpCodeOptions, body)
+			of, oerr := a.Wait(ch, c13Watchdog)
+			switch {
+			case oerr == rawcql.ErrClosed:
+				r.Violate(mon.Violation{Signature: "C13/compression/compressed-options-closes-connection/" + sc.Alg, Scenario: scen, Witness: wit(),
+					Detail: fmt.Sprintf("after READY for COMPRESSION=%q an OPTIONS frame with the COMPRESSED flag and the body % x (what %s makes of an empty body) closed the connection instead of being answered SUPPORTED", sc.Name, body, sc.Alg)})
+				return
+			case oerr != nil:
+				r.Inconc("startup supported: no reply to a compressed OPTIONS within the watchdog")
+				return
+			case of.OpCode != primitive.OpCodeSupported:
+				r.Violate(mon.Violation{Signature: "C13/compression/compressed-options-not-supported/" + sc.Alg, Scenario: scen, Witness: wit(),
+					Detail: fmt.Sprintf("COMPRESSION=%q: compressed OPTIONS (body % x) answered %s", sc.Name, body, c13OpName(of.OpCode))})
+				return
+			}
+			r.Obs("compressed_options_answered:"+sc.Alg, 1)
+		}
+	}
 	r.Obs("startup_supported", 1)
 	// B: the other connection keeps talking plain
 	btok, bf, err := c13RoundTrip(b, v, 2, "")
@@ -1283,4 +1307,16 @@ func c13Orders(c *Ctx, bed *px.Bed, j c13Job) {
 		}
 		cl.Close()
 	}
+}
+
+// c13EmptyCompressed returns the forms an empty body takes under the algorithm: what the reference compressor writes, and
+// the bare minimum.
+func c13EmptyCompressed(alg string) [][]byte {
+	switch alg {
+	case "lz4":
+		return [][]byte{{0, 0, 0, 0, 0}, {0, 0, 0, 0}}
+	case "snappy":
+		return [][]byte{{0}}
+	}
+	return nil
 }
